@@ -1,0 +1,6 @@
+//go:build !verif
+
+package z
+
+// Verification hook stub (see verif_on.go); empty and inlined away without the "verif" build tag.
+func verifTreeNewNode(t *Tree) {}
